@@ -256,6 +256,9 @@ func (e *Emitter) emitScriptStatement(scriptStmt *ast.ScriptStatement, textLabel
 			if !ok {
 				return "", errors.New("could not emit 'break' statement because its return point is unknown")
 			}
+			// Statements after the 'break' are unreachable, but they may contain labels,
+			// so keep them in their own chunk rather than discarding them.
+			remainingChunks, _ = curChunk.splitChunkForBranch(i, &chunkCounter, remainingChunks)
 			completeChunk := &chunk{
 				id:             curChunk.id,
 				returnID:       curChunk.returnID,
@@ -268,6 +271,7 @@ func (e *Emitter) emitScriptStatement(scriptStmt *ast.ScriptStatement, textLabel
 			if !ok {
 				return "", errors.New("could not emit 'continue' statement because its return point is unknown")
 			}
+			remainingChunks, _ = curChunk.splitChunkForBranch(i, &chunkCounter, remainingChunks)
 			completeChunk := &chunk{
 				id:             curChunk.id,
 				returnID:       curChunk.returnID,
